@@ -3,6 +3,8 @@ package main
 import (
 	"bytes"
 	"io"
+	"os"
+	"strconv"
 	"sync"
 	"time"
 
@@ -86,6 +88,17 @@ func (f *scriptFile) Read(p []byte) (int, error) {
 	return take(len(f.data)), nil
 }
 
+// watchdog is how long a file-variant call may take before it is classed as a hang
+// (VERIF_WATCHDOG_S overrides the 10 s default, e.g. for race-detector builds).
+func watchdog() time.Duration {
+	if v := os.Getenv("VERIF_WATCHDOG_S"); v != "" {
+		if n, err := strconv.Atoi(v); err == nil {
+			return time.Duration(n) * time.Second
+		}
+	}
+	return 10 * time.Second
+}
+
 type parseObs struct {
 	Class string // ok | err | panic | hang
 	Err   string
@@ -114,7 +127,7 @@ func parseWhole(src []byte, name string, opts ...bcl.Option) (o parseObs, p *bcl
 func parseFile(f *scriptFile, opts ...bcl.Option) (o parseObs, p *bcl.Prog) {
 	var out, log bytes.Buffer
 	var err error
-	o.Class, o.Err = guard(10*time.Second, func() {
+	o.Class, o.Err = guard(watchdog(), func() {
 		p, err = bcl.ParseFile(f, append([]bcl.Option{bcl.OptOutput(&out), bcl.OptLogger(&log)}, opts...)...)
 	})
 	if o.Class == "ok" {
